@@ -84,7 +84,14 @@ def envelope_spec(draw, tier):
                 [be.T_BYTES, 0, "vmware.keyHash", "@keyhash"], [be.T_BYTES, 0, "vmware.iv", "@iv"]]
     names = draw(st.lists(st.sampled_from(NAMES), max_size=6, unique=True))
     extras = [draw(attr(n)) for n in names]
-    attrs = draw(st.permutations(required + extras))
+    attrs = list(draw(st.permutations(required + extras)))
+    fill_free = draw(st.sampled_from([None, None, None, 0, 1, 2, 7]))
+    if fill_free is not None:
+        # a Bytes attribute sized so that the attributes + terminator leave exactly fill_free bytes of the 4096-byte header block
+        used = 512 + 4 + sum(len(be.pack_attr(t, f, n, ("00" * 32 if v == "@keyhash" else "00" * 12 if v == "@iv" else v))[0]) for t, f, n, v in attrs)
+        room = 4096 - used - fill_free - (4 + len("fill") + 1 + 8)
+        if room >= 0:
+            attrs.insert(draw(st.integers(0, len(attrs))), [be.T_BYTES, 0, "fill", bytes((i * 11) & 0xFF for i in range(room)).hex()])
     mode = draw(st.sampled_from(["api", "api", "api", "cli", "keystore"]))
     spec = {
         "mode": mode, "payload_len": plen, "payload_key": draw(st.integers(1, 1 << 30)), "padding": draw(st.one_of(st.sampled_from([0, 4095, 1]), st.integers(0, 4095))),
@@ -197,6 +204,9 @@ def check(spec) -> Outcome:
             tampers += [(region, p) for p in pos if 0 <= p < n]
         elif region == "taglen":
             tampers += [(region, 0)]
+        elif b - a > 64:
+            n = b - a  # long values: first, last, middle and a few drawn positions
+            tampers += [(region, p) for p in sorted({0, 1, n // 2, n - 2, n - 1} | {q % n for q in spec["ct_positions"]})]
         else:
             tampers += [(region, p) for p in range(b - a)]
     if aad:
